@@ -96,6 +96,13 @@ def parseArg (j : Json) : M (Arg Rat) :=
         | "complex" => .complex
         | _ => .other))
 
+/-- the constructor keyword `fill_value=`: absent, `"nan"`, or a number -/
+def parseFill (j : Json) : M (FillArg Rat) :=
+  match fOpt j "fill" with
+  | none => pure .default
+  | some (.str "nan") => pure .nan
+  | some v => do pure (.value (← asRat v))
+
 /-- the constructor keywords `z=`, `z_type=` -/
 def parseZInit (j : Json) : M (Option (Rat × ZType)) :=
   match fOpt j "z" with
@@ -114,7 +121,7 @@ def parseCall (j : Json) : M (Call Rat × Bool) := do
         | some v => (asNat v).map some
         | none => pure none
       pure (.newEmpirical k (← fNat j "x") (← fNat j "y") (← optRats j "xconv") (← optRats j "yconv")
-              (← fBool j "keep_neg") md (match fOpt j "fill0" with | some (.bool b) => b | _ => false) (← parseZInit j), false)
+              (← fBool j "keep_neg") md (← parseFill j) (← parseZInit j), false)
   | "new_analytic" => do
       let k ← fStr j "kind" >>= parseKind
       let (l, _) ← getField j "leaf" >>= parseLeaf
